@@ -194,7 +194,7 @@ fn check_under_dryoc(cx: &mut Ctx, origin: &str, s: &str, pw: &[u8], rng: &mut c
 }
 
 pub fn run(cx: &mut Ctx) {
-    let n = cx.tier.pick(6usize, 600, 20_000);
+    let n = cx.tier.pick(6usize, 600, 300_000);
     let mut idx = 0u64;
     for i in 0..n {
         idx += 1;
